@@ -2578,6 +2578,12 @@ impl PublicKey {
                             debug_assert!(zUi.equals(-zVj) != 0);
                             s0 + ni - nj
                         };
+                        // A valid signature has a non-zero s (a match with
+                        // s = 0 happens when h*G + r*Q is the neutral and
+                        // the transmitted part of s is zero).
+                        if s.iszero() != 0 {
+                            return None;
+                        }
                         // sig2[] already contains r, we just have to encode
                         // the complete s in it.
                         sig2[32..64].copy_from_slice(&bswap32(&s.encode()));
